@@ -97,6 +97,14 @@ class FMap:
         self.it, self.closure, self.plain = it, closure, plain
 
 
+class FlatMap:
+    """`iter.flat_map(closure)` (lazy): `cur` is the iterator the closure returned for the current outer element"""
+    __slots__ = ("it", "closure", "cur")
+
+    def __init__(self, it, closure, cur=None):
+        self.it, self.closure, self.cur = it, closure, cur
+
+
 class Uninit:
     def __repr__(self):
         return "Uninit"
@@ -878,7 +886,9 @@ class Executor:
             return ("model", "Iterator::adaptor::filter_map")
         if re.match(r"^Iterator::\w+::map$", norm):
             return ("model", "Iterator::adaptor::map")
-        if norm in ("Iterator::FilterMap::collect", "Iterator::Map::collect"):
+        if re.match(r"^Iterator::\w+::flat_map$", norm):
+            return ("model", "Iterator::adaptor::flat_map")
+        if norm in ("Iterator::FilterMap::collect", "Iterator::Map::collect", "Iterator::FlatMap::collect"):
             return ("model", "Iterator::FilterMap::collect")
         if norm in ("RepAsIteratorExt::Map::quote_into_iter", "RepAsIteratorExt::FilterMap::quote_into_iter", "Map::quote_into_iter", "FilterMap::quote_into_iter"):
             return ("model", "RepAsIteratorExt::Vec::quote_into_iter")
@@ -1619,7 +1629,7 @@ def m_into_iter(ex, state, frame, dest, args, ret_block, work, callee):
         return _ret(ex, state, frame, dest, IterL(v.items), ret_block)
     if isinstance(v, Agg) and v.kind == "array":
         return _ret(ex, state, frame, dest, IterL(v.fields), ret_block)
-    if isinstance(v, (IterS, IterL)):
+    if isinstance(v, (IterS, IterL, FMap, FlatMap)):
         return _ret(ex, state, frame, dest, v, ret_block)
     if isinstance(v, Opaque):
         ex.fresh += 1
@@ -1682,6 +1692,40 @@ def iter_next_alts(ex, state, it):
                         alts.append((st2, val, FMap(inner1, it.closure)))
                     else:
                         todo.append((st2, inner1))
+        return alts
+    if isinstance(it, FlatMap):
+        alts = []
+        todo = [(state, it.it, it.cur, 0)]
+        while todo:
+            st, outer, cur, depth = todo.pop()
+            if depth > 2 * ex.slice_bound + 4:
+                raise Inconclusive("flat_map: too many empty inner iterators")
+            if cur is not None:
+                for st1, opt, cur1 in iter_next_alts(ex, st, cur):
+                    if opt.variant == "Some":
+                        alts.append((st1, opt, FlatMap(outer, it.closure, cur1)))
+                    else:
+                        todo.append((st1, outer, None, depth + 1))
+                continue
+            for st1, opt, outer1 in iter_next_alts(ex, st, outer):
+                if opt.variant == "None":
+                    alts.append((st1, opt, FlatMap(outer1, it.closure, None)))
+                    continue
+                for pc, mem, val, evs in ex.eval_closure_all(st1, it.closure, [opt.fields[0]]):
+                    st2 = st1.clone()
+                    st2.pc = list(pc)
+                    st2.mem = dict(mem)
+                    st2.events = st2.events + list(evs)
+                    inner = _val(ex, st2, val)
+                    if isinstance(inner, Sym):
+                        inner = IterS(inner)
+                    elif isinstance(inner, VecL):
+                        inner = IterL(inner.items)
+                    elif isinstance(inner, Agg) and inner.kind == "adt" and inner.name == "Option":
+                        inner = IterL(inner.fields[:1] if inner.variant == "Some" else [])
+                    if not isinstance(inner, (IterS, IterL, FMap, FlatMap)):
+                        raise Inconclusive("flat_map closure returned %r" % (inner,))
+                    todo.append((st2, outer1, inner, depth + 1))
         return alts
     if isinstance(it, Opaque):
         # an iterator the executor knows nothing about: treat it as exhausted-or-not without bound -> give up on this path
@@ -1761,7 +1805,7 @@ def m_quote_into_iter(ex, state, frame, dest, args, ret_block, work, callee):
         it = IterL(v.items)
     elif isinstance(v, Sym):
         it = IterS(v)
-    elif isinstance(v, (FMap, IterL, IterS)):
+    elif isinstance(v, (FMap, FlatMap, IterL, IterS)):
         it = v
     else:
         it = IterL([])
@@ -1786,11 +1830,13 @@ def m_iter_adaptor(ex, state, frame, dest, args, ret_block, work, callee):
     raise Inconclusive("iterator adaptor %s on %r" % (which, it))
 
 
-@model("Iterator::adaptor::filter_map", "Iterator::adaptor::map")
+@model("Iterator::adaptor::filter_map", "Iterator::adaptor::map", "Iterator::adaptor::flat_map")
 def m_filter_map(ex, state, frame, dest, args, ret_block, work, callee):
     it = _val(ex, state, args[0])
-    if not isinstance(it, (IterS, IterL, FMap)):
-        raise Inconclusive("filter_map / map over %r" % (it,))
+    if not isinstance(it, (IterS, IterL, FMap, FlatMap)):
+        raise Inconclusive("filter_map / map / flat_map over %r" % (it,))
+    if normalize_callee(callee).endswith("::flat_map"):
+        return _ret(ex, state, frame, dest, FlatMap(it, args[1]), ret_block)
     return _ret(ex, state, frame, dest, FMap(it, args[1], normalize_callee(callee).endswith("::map")), ret_block)
 
 
@@ -1798,11 +1844,16 @@ def m_filter_map(ex, state, frame, dest, args, ret_block, work, callee):
 def m_filter_map_collect(ex, state, frame, dest, args, ret_block, work, callee):
     fm = _val(ex, state, args[0])
     dty = (ex.place_type(frame, dest) or "").strip()
-    if not re.match(r"^(std::vec::|alloc::vec::)?Vec<", dty):
-        # collecting into something else (Result<Vec<_>, _>, a token stream, ...): not modelled, the value stays opaque
+    into_result = re.match(r"^(std::result::|core::result::)?Result<(std::vec::|alloc::vec::)?Vec<", dty) is not None
+    if not into_result and not re.match(r"^(std::vec::|alloc::vec::)?Vec<", dty):
+        # collecting into something else (a token stream, a map, ...): not modelled, the value stays opaque
         return _ret(ex, state, frame, dest, Opaque(("call", normalize_callee(callee), tuple(ex.summ(state, a)[:120] for a in args)), dty or None), ret_block)
-    if not isinstance(fm, (FMap, IterL, IterS)):
+    if not isinstance(fm, (FMap, FlatMap, IterL, IterS)):
+        if into_result:
+            return _ret(ex, state, frame, dest, Opaque(("call", normalize_callee(callee), tuple(ex.summ(state, a)[:120] for a in args)), dty or None), ret_block)
         raise Inconclusive("collect of %r" % (fm,))
+    if into_result:
+        return _collect_result(ex, state, frame, dest, fm, ret_block, work)
     cur = [(state.clone(), [], fm)]
     done = []
     for step in range(ex.slice_bound + 6):
@@ -1824,6 +1875,52 @@ def m_filter_map_collect(ex, state, frame, dest, args, ret_block, work, callee):
     for st, items in done:
         fr = st.frames[-1]
         ex.write_place(st, fr, dest, VecL(items))
+        fr.block = ret_block
+        work.append(st)
+    return "done"
+
+
+def _collect_result(ex, state, frame, dest, fm, ret_block, work):
+    """`iter.collect::<Result<Vec<_>, _>>()`: the first Err ends the collection, otherwise Ok(all items)"""
+    cur = [(state.clone(), [], fm)]
+    done = []  # (state, Result value)
+    for step in range(ex.slice_bound + 6):
+        nxt = []
+        for st, items, itv in cur:
+            for st1, opt, it1 in iter_next_alts(ex, st, itv):
+                if opt.variant == "None":
+                    done.append((st1, Agg("adt", "Result", "Ok", [VecL(items)])))
+                    continue
+                v = opt.fields[0]
+                if isinstance(v, Agg) and v.kind == "adt" and v.name == "Result":
+                    if v.variant == "Ok":
+                        nxt.append((st1, items + [v.fields[0]], it1))
+                    else:
+                        done.append((st1, Agg("adt", "Result", "Err", v.fields[:1])))
+                    continue
+                if isinstance(v, (Sym, Opaque)):
+                    d = ex.discriminant(st1, v if isinstance(v, Sym) else Opaque(v.origin, "Result<?,?>"), "Result<?,?>")
+                    for i in (0, 1):
+                        c = d == i
+                        if ex.feasible(st1, c):
+                            st2 = st1.clone()
+                            st2.pc.append(c)
+                            if i == 0:
+                                ok = Sym(v.path + (("as", "Ok"), 0)) if isinstance(v, Sym) else Opaque(("ok-of", v.origin), None)
+                                nxt.append((st2, items + [ok], it1))
+                            else:
+                                done.append((st2, Agg("adt", "Result", "Err", [Opaque(("err-of", v.origin if isinstance(v, Opaque) else pstr(v.path)), None)])))
+                    continue
+                raise Inconclusive("collect into Result of %r" % (v,))
+        cur = nxt
+        if not cur:
+            break
+    if cur or not done:
+        raise Inconclusive("collect(): iterator longer than the bound / no alternative")
+    ex.stats["forks"] += len(done) - 1
+    for st, val in done:
+        fr = st.frames[-1]
+        ex.write_place(st, fr, dest, val)
         fr.block = ret_block
         work.append(st)
     return "done"
